@@ -7,6 +7,7 @@
 #include "TasmanianAddons.hpp"
 #include "tgrid.hpp"
 #include <mutex>
+#include <set>
 #include <thread>
 #include <chrono>
 #include <atomic>
@@ -61,7 +62,7 @@ static int mode0(int argc, char **argv){
 }
 
 struct Model {
-  int d, outs; std::mutex m; std::map<std::vector<double>, int> ids; std::map<std::vector<double>, int> count; std::map<std::vector<double>, std::vector<double>> vals;
+  int d, outs; std::mutex m; std::map<std::vector<double>, int> ids; std::map<std::vector<double>, int> count; std::map<std::vector<double>, std::vector<double>> vals; std::set<std::vector<double>> preloaded;
   std::vector<std::atomic<int>> busy; bool overlap = false; int total = 0; bool symbolic; int latency = 0; int max_tid = -1; std::atomic<int> bad_tid{0};   // max_tid: largest documented thread id (-1: not checked)
   Model(int dims, int o, int threads, bool sym) : d(dims), outs(o), busy(threads + 1), symbolic(sym) { for (auto &b : busy) b = 0; }
   void eval(const double *x, double *y, size_t tid){
@@ -94,7 +95,7 @@ static void final_checks(TasmanianSparseGrid &grid, Model &mod, const char *what
   fpsym_check(all_known, (w + ": every loaded point was computed by the model").c_str());
   if (n > 0 && (!grid.isLocalPolynomial() || lpParentComplete(grid)) && !grid.isWavelet()){
     std::vector<double> y; grid.evaluateBatch(lp, y);
-    for (int i=0;i<n;i++){ auto &want = mod.vals[pointAt(lp, d, i)]; for (int k=0;k<outs;k++) fpsym_eq(y[(size_t) i * outs + k], want[k], 1.0 + n, (w + ": the final surrogate reproduces the model at the loaded points").c_str()); }
+    for (int i=0;i<n;i++){ if (mod.preloaded.count(pointAt(lp, d, i))) continue; auto &want = mod.vals[pointAt(lp, d, i)]; for (int k=0;k<outs;k++) fpsym_eq(y[(size_t) i * outs + k], want[k], 1.0 + n, (w + ": the final surrogate reproduces the model at the loaded points").c_str()); }
   }
   fpsym_note("model_calls", mod.total); fpsym_note("loaded", n);
 }
@@ -106,9 +107,13 @@ int main(int argc, char **argv){
   TasmanianSparseGrid grid; makeGrid(grid, g);
   if (mode == 1){
     int parallel = atoi(argv[3]), jobs = atoi(argv[4]), batch = atoi(argv[5]);
-    int budget = 1 + fpsym_choice(3, 8, 4);   // 1..8 points
-    fpsym_note("budget", budget);
+    int pre = argc > 7 ? atoi(argv[7]) : 0;   // > 0: the grid is loaded (concrete values) before the call and the budget is pre .. pre+3: the regime of >= 1000 loaded points, where finished samples wait in the side storage
+    int budget = pre > 0 ? pre + fpsym_choice(3, 4, 2) : 1 + fpsym_choice(3, 8, 4);   // 1..8 points
+    fpsym_note("budget", budget); int preloaded_points = 0;
     Model mod(d, g.outputs, jobs + 1, g.family != "wavelet"); bool bad_y_size = false; mod.latency = argc > 6 ? atoi(argv[6]) : 0;
+    if (pre > 0){ std::vector<double> np = grid.getNeededPoints(); size_t nn = np.size() / d; std::vector<double> vv(nn * g.outputs);
+      for (size_t i=0;i<nn;i++){ std::vector<double> p(np.begin() + i * d, np.begin() + (i + 1) * d), v(g.outputs); for (int k=0;k<g.outputs;k++){ v[k] = SymModel::dflt(p, k); vv[i * g.outputs + k] = v[k]; } mod.vals[p] = v; mod.preloaded.insert(p); }
+      grid.loadNeededValues(vv); fpsym_note("preloaded", (long) nn); preloaded_points = (int) nn; budget += preloaded_points; }   // max_num_points counts the points the grid already holds
     auto model = [&](std::vector<double> const &x, std::vector<double> &y, size_t tid)->void{
       size_t np = x.size() / d;
       // documented contract (no initial guess): on entry y already has one strip of outputs per sample; the model writes in place
@@ -126,7 +131,7 @@ int main(int argc, char **argv){
       else constructSurrogate<mode_sequential>(model, (size_t) budget, (size_t) jobs, (size_t) batch, grid, type_level, std::vector<int>(d, 1), g.ll);
     }
     grid.finishConstruction();
-    fpsym_check(mod.total <= budget, "constructSurrogate never launches more than max_num_points samples");
+    fpsym_check(mod.total <= budget - preloaded_points, "constructSurrogate never launches more than max_num_points samples");
     fpsym_check(!bad_y_size, "the model is called with y of the documented size (samples x outputs), so that every value is stored at its own sample");
     final_checks(grid, mod, parallel ? "parallel constructSurrogate" : "sequential constructSurrogate");
   } else {
